@@ -1,10 +1,11 @@
 from checks import finite
 from checks.e3num import run_e3num
+from checks.e3tables import run_e3tables
 from checks.generic import run_components
 
-ASSUME = ["E3 numeric (kernel executed on pseudo-random affine simplex data vs an independent UFL/basix reference) is bounded: corpus forms, fixed seeds, rtol 1e-9", "A-INT: Python/numpy ints treated as mathematical integers", "A-FLOAT: floats treated as reals"]
+ASSUME = ["E3 tables: run-time contract on build_optimized_tables (offsets, permutation axis, values against an independent basix tabulation) is bounded by the corpus calls", "E3 numeric (kernel executed on pseudo-random affine simplex data vs an independent UFL/basix reference) is bounded: corpus forms, fixed seeds, rtol 1e-9", "A-INT: Python/numpy ints treated as mathematical integers", "A-FLOAT: floats treated as reals"]
 
 
 def run(tier, seed):
-    return run_components("C02", tier, seed, ["e1", finite.c02_geometry_access, "e2", run_e3num], ASSUME,
+    return run_components("C02", tier, seed, ["e1", finite.c02_geometry_access, "e2", run_e3num, lambda rep, t, sd: run_e3tables(rep, t, sd, ("T-OFFSET", "T-VALUE"))], ASSUME,
                           ["kernelvc (E2 walker; scoping mirrors C/formatter.py)", "UFL form data as oracle for extents"])
